@@ -1,7 +1,7 @@
 import WhVerif.Lemmas.C09
 import WhVerif.Lemmas.C09PseudoInst
 import WhVerif.Lemmas.C09PseudoOrder
-import WhVerif.Props.C02
+import WhVerif.Lemmas.C02Compose
 /-!
 # C09 — PS and HP encodings are equivalent, round-trip, and never mix old and new phase
 
@@ -288,7 +288,7 @@ theorem pseudo_reads_reproduce_sets (rows : List VarPhase) (w : Nat → Nat) (re
   have hmem : ∀ t ∈ tagged, t ∈ blocksAsReads 2 rows := fun t ht => hsel.mem_iff.mp ht
   have hwf : WF I := pseudoInst_wf hs hmem hord
   have hef : ErrFree I (truthHap rows) (srcOf tagged) := pseudoInst_errfree hs hbi hw hmem
-  have hz : dpCost I = some 0 := WhVerif.Props.C02.errfree_dpCost_zero hef hwf
+  have hz : dpCost I = some 0 := WhVerif.C02.errfree_dpCost_zero hef hwf
   refine ⟨hwf, hef, hz, ?_, ?_⟩
   · cases hwit : witness I with
     | none => rw [(WhVerif.Props.C01.witness_none_iff I).mp hwit] at hz; cases hz
@@ -306,7 +306,7 @@ theorem pseudo_reads_reproduce_sets (rows : List VarPhase) (w : Nat → Nat) (re
     have hcov : covers I r0 (colOf (pseudoCols rows) v.pos) :=
       pseudoInst_covers hr0 (by rw [hget]; exact ht0) (by rw [hget]; exact hv)
     have hr0' : r0 < I.nreads := by rw [pseudoInst_nreads]; exact hr0
-    rw [WhVerif.Props.C02.pipeline_truth hef hwf β τ hcost r0 r0 _ (Connected.refl r0 hr0') hcov (colOf_lt hcol)]
+    rw [WhVerif.C02.pipeline_truth_solver hef hwf β τ hcost r0 r0 _ (Connected.refl r0 hr0') hcov (colOf_lt hcol)]
     have hsrc : srcOf tagged r0 = false := by rw [srcOf_getElem hr0, hget]; rfl
     rw [hsrc, truthHap_colOf hs hcovered, h0]
     cases β.getD r0 false <;> simp
